@@ -2,6 +2,8 @@ package main
 
 import (
 	"fmt"
+	"go/ast"
+	"go/token"
 	"go/types"
 	"strings"
 )
@@ -131,7 +133,9 @@ func runC13(w *World, r *Report) {
 	r.Rule("idempotent", "every store of Len/MarshalBinary/Read into receiver-reachable memory has an idempotent form", 15)
 	r.Rule("readonly", "calls on receiver-rooted state reach only read-only standard-library methods", 20)
 	r.Rule("pure", "a size/encode method without any store into its receiver", 200)
+	r.Rule("stamped", "size functions and encoders do not read another object's length field that is re-assigned when that object is sized or encoded", 150)
 	r.Rule("settled", "state an encoder stores into a part of the value is stored before that part is encoded", 10)
+	stampedReadRule(w, r)
 	nMethods := 0
 	for _, k := range w.KindsL {
 		type m struct {
@@ -251,7 +255,7 @@ func runC13(w *World, r *Report) {
 								} else {
 									r.Fail(VViolation, "settled", subj, s.Path+"@enc("+p+")", w.Pos(rec.Pos), p+" is encoded before "+s.Path+" is assigned "+iv.T.String()+" (at "+w.Pos(s.Pos)+"): the first encoding carries the previous value, later ones the new one")
 								}
-							case rec.Kind == "int" && rec.Src == "val("+s.Path+")":
+							case (rec.Kind == "int" || rec.Kind == "byte") && rec.Src == "val("+s.Path+")":
 								r.Fail(VViolation, "settled", subj, s.Path+"@write", w.Pos(rec.Pos), s.Path+" is written to the output before it is assigned "+iv.T.String()+" (at "+w.Pos(s.Pos)+"): the first encoding carries the previous value")
 							}
 						}
@@ -264,4 +268,104 @@ func runC13(w *World, r *Report) {
 		}
 	}
 	r.Stats["size_and_encode_methods"] = nMethods
+}
+
+// stampedReadRule: a size function or encoder does not read, from an object other than its own receiver, a
+// field that some size function or encoder in the module assigns (a "stamped" length). Such a field holds
+// the constructor's value until the owner's first encoding and the stamped value afterwards, so a parent
+// that sizes itself from it gives different answers before and after.
+func stampedReadRule(w *World, r *Report) {
+	stamped := map[*types.Var]string{}
+	var codec []*FuncInfo
+	for _, key := range w.sortedFuncKeys() {
+		fi := w.Funcs[key]
+		if fi.Recv == nil || fi.Decl.Body == nil {
+			continue
+		}
+		switch fi.Decl.Name.Name {
+		case "Len", "MarshalBinary":
+		default:
+			continue
+		}
+		codec = append(codec, fi)
+		info := fi.Pkg.TypesInfo
+		ast.Inspect(fi.Decl.Body, func(n ast.Node) bool {
+			as, ok := n.(*ast.AssignStmt)
+			if !ok {
+				return true
+			}
+			for _, l := range as.Lhs {
+				if se, ok := unparen(l).(*ast.SelectorExpr); ok {
+					if sel, ok := info.Selections[se]; ok && sel.Kind() == types.FieldVal {
+						if v, ok := sel.Obj().(*types.Var); ok && isIntType(v.Type()) {
+							if _, seen := stamped[v]; !seen {
+								stamped[v] = fi.Key
+							}
+						}
+					}
+				}
+			}
+			return true
+		})
+	}
+	n := 0
+	for _, fi := range codec {
+		info := fi.Pkg.TypesInfo
+		var recv types.Object
+		if len(fi.Decl.Recv.List) > 0 && len(fi.Decl.Recv.List[0].Names) > 0 {
+			recv = info.Defs[fi.Decl.Recv.List[0].Names[0]]
+		}
+		lhs := map[ast.Expr]bool{}
+		ast.Inspect(fi.Decl.Body, func(nd ast.Node) bool {
+			if as, ok := nd.(*ast.AssignStmt); ok && as.Tok == token.ASSIGN {
+				for _, l := range as.Lhs {
+					lhs[unparen(l)] = true
+				}
+			}
+			return true
+		})
+		bad := ""
+		var badPos token.Pos
+		ast.Inspect(fi.Decl.Body, func(nd ast.Node) bool {
+			se, ok := nd.(*ast.SelectorExpr)
+			if !ok || lhs[se] || bad != "" {
+				return true
+			}
+			sel, ok := info.Selections[se]
+			if !ok || sel.Kind() != types.FieldVal {
+				return true
+			}
+			v, _ := sel.Obj().(*types.Var)
+			by, isStamped := stamped[v]
+			if !isStamped {
+				return true
+			}
+			// rooted at the receiver: the method's own (or its embedded header's) field
+			root := unparen(se.X)
+			for {
+				switch x := root.(type) {
+				case *ast.SelectorExpr:
+					root = unparen(x.X)
+					continue
+				case *ast.StarExpr:
+					root = unparen(x.X)
+					continue
+				}
+				break
+			}
+			if id, ok := root.(*ast.Ident); ok && recv != nil && info.Uses[id] == recv {
+				return true
+			}
+			bad = fmt.Sprintf("%s reads %s from another object, a field that %s assigns when it sizes or encodes that object", fi.Key, types.ExprString(se), by)
+			badPos = se.Pos()
+			return true
+		})
+		n++
+		if bad != "" {
+			r.Fail(VViolation, "stamped", fi.Key, "", w.Pos(badPos), bad+": until that object has been encoded once the field holds what its constructor left, afterwards the stamped value, so repeated sizing or encoding of the parent gives different answers")
+		} else {
+			r.OK("stamped", fi.Key, "", w.Pos(fi.Decl.Pos()), "reads no stamped length of another object", false)
+		}
+	}
+	r.Stats["stamped_fields"] = len(stamped)
 }
